@@ -22,6 +22,7 @@ Implementation: Simple text extraction and pattern matching
 """
 
 from src.core.base import BaseLintContext
+from src.core.constants import split_lines
 from src.core.types import Violation
 
 
@@ -38,7 +39,7 @@ def get_violation_line(violation: Violation, context: BaseLintContext) -> str | 
     if not context.file_content:
         return None
 
-    lines = context.file_content.splitlines()
+    lines = split_lines(context.file_content)
     if violation.line <= 0 or violation.line > len(lines):
         return None
 
